@@ -768,8 +768,11 @@ func (c *wsConn) handleWsConn(ctx context.Context) {
 
 	// on close, make sure to return from all pending calls, and cancel context
 	//  on all calls we handle
-	defer c.closeInFlight()
+	// (deferred calls run last-in-first-out: closeInFlight runs before
+	// closeChans, as in tryReconnect, so that a channel sink registered by a
+	// response that is being delivered right now is still closed)
 	defer c.closeChans()
+	defer c.closeInFlight()
 	defer vhook(c, "ws.exit.begin", nil)
 
 	// setup pings
